@@ -17,6 +17,8 @@ RULE = ('Part C: a real StatusMonitor asks the REAL Controller (running under th
         'missing weights at every subset of positions, malformed values at every position) is loaded with '
         'FlowIRConcrete; Part B: a real StatusMonitor per (n, weight vector of a reduced family) and every '
         '(current stage, finished/in-transit/not-started partition, per-stage progress in {0,.5,1}) assignment. '
+        'Part B also: a stage transition of the (lock-aware) stand-in controller at EVERY call position of a status pass, 11/12/21 '
+        'stages with distinct weights, default weights up to 130 stages and near-one sums. '
         'A case is non-trivial if it has >=2 stages or a non-default weight; distinct = distinct (part, weights, answers).')
 ASSUMPTIONS = [
     '"sum to one" is judged with tolerance 1e-6 on the result; given weights count as "already summing to one" when '
